@@ -921,9 +921,13 @@ func (v *FV) applyContract(fr *Frame, st *State, con *Contract, callee *ssa.Func
 		if strings.HasPrefix(c.Name, "opt.") {
 			// an alternative phrasing of the contract: assumed only by callers that ask for it ("uses opt.x")
 			asked := false
+			group := c.Name
+			if k := strings.Index(group, ":"); k > 0 {
+				group = group[:k]
+			}
 			if v.con != nil {
 				for _, u := range v.con.Uses {
-					asked = asked || u == c.Name
+					asked = asked || u == group
 				}
 			}
 			if !asked {
